@@ -76,7 +76,7 @@ fn bisim(n: usize) {
     kani::cover!(m == MState::CData, "ends in continuation Data");
 }
 
-//@ harness: c09_bisim8 props=C19 also=C09,C01 tier=quick class=functional covers=12 mem=10 timeout=900 est=60
+//@ harness: c09_bisim8 props=C19,C11 also=C09,C01 tier=quick class=functional covers=12 mem=10 timeout=900 est=60
 //@ bounds: every sequence of <= 8 arbitrary 80-bit words from the initial state (all 12 implementation states and every edge are reachable within 8 steps: covers)
 #[kani::proof]
 #[kani::unwind(9)]
@@ -100,7 +100,7 @@ fn c09_bisim20() {
     bisim(20);
 }
 
-//@ harness: c09_step_any_state props=C09,C01 tier=quick class=functional covers=8 mem=8 timeout=600 est=30
+//@ harness: c09_step_any_state props=C09,C01,C11,C02 tier=quick class=functional covers=8 mem=8 timeout=600 est=30
 //@ bounds: ONE step from every implementation state reachable by a <= 5-word prefix chosen by the solver, arbitrary word: inductive step of the bisimulation (relation: impl_state_matches)
 #[kani::proof]
 #[kani::unwind(7)]
